@@ -335,6 +335,9 @@ def rows():
     return R
 
 
+THREAD_REPLICA = False   # cold-start races of these modules resolve during corpus harvesting; C13's trials own them
+
+
 def shards(tier):
     names = [r['name'] for r in rows()]
     n = 16 if tier == 'quick' else 32
